@@ -147,7 +147,7 @@ def _gen_op(rng, cfg):
         # 4th element: which optional arguments / which function the call gets (0 = the defaults) - the same method is
         # called on the same object with different options in either order
         return ["use", rng.randrange(1000), rng.choice(["integrate", "angint", "sph", "spline", "interp", "basis", "savg", "sph", "interp", "peek", "peek"]),
-                rng.choice([0, 0, rng.randrange(16)])]
+                rng.choice([0, rng.randrange(16), rng.randrange(16)])]
     if kind == "edit":
         return ["edit", rng.randrange(1000), rng.choice(["points", "weights", "points", "weights", "indices", "degrees", "aux"]), rng.choice(EDIT_HOWS)]
     if kind == "reobserve":
@@ -809,7 +809,9 @@ def _op_use(ctx, owner, op):
     had_fault = ctx.store.active()
     mark = ctx.mark()
 
-    def live(gg):
+    keep = {}
+
+    def live(gg, hold=False):
         if what == "integrate":
             return np.asarray(gg.integrate(f))
         if what == "angint":
@@ -836,6 +838,8 @@ def _op_use(ctx, owner, op):
             q = np.asarray(pts[: min(len(pts), 40)])
             v = var % 4
             fn = gg.interpolate(f)
+            if hold:
+                keep["fn"] = fn
             if v == 0:
                 return np.asarray(fn(q))
             if v == 1:
@@ -848,8 +852,21 @@ def _op_use(ctx, owner, op):
             return np.asarray(gg.basis)
         raise ValueError(what)
 
-    oc = _outcome(lambda: live(g))
+    oc = _outcome(lambda: live(g, hold=True))
     fired = ctx.fired_since(mark)
+    # what an earlier call on this object handed out (an interpolating function) belongs to the caller: it is evaluated
+    # again now, after whatever happened since, and must still give the values it gave when it was new
+    held = m.get("held_interp")
+    if held is not None and not had_fault and not fired:
+        hfn, hq, hv = held
+        ho = _outcome(lambda: np.asarray(hfn(hq.copy())))
+        if ho[0] == "ok":
+            if ho[1].shape != hv.shape or not M.close(ho[1], hv, rtol=1e-12):
+                ctx.violate("held-result-changed", "use-interp", m["method"], "an interpolating function returned by an earlier interpolate() call on this grid gives other values after later calls on the same grid")
+            ctx.probes.hit("held-interpolant-re-evaluated")
+        elif not fired:
+            ctx.violate("held-result-changed", "use-interp", m["method"] + ":raise", f"an interpolating function returned earlier now raises {ho[1]!r}")
+
     # reference: the same use on the same recipe in a cold fault-free context
     with _Cold(ctx):
         rc = _outcome(lambda: live(_build(ctx, o.recipe)))
@@ -874,6 +891,11 @@ def _op_use(ctx, owner, op):
     for k in o.keys:
         if k in ctx.perturbed:
             ctx.nontrivial = True
+    if what == "interp" and "fn" in keep and not (fired or had_fault):
+        hq = np.asarray(pts[: min(len(pts), 25)], dtype=float) + 0.01
+        hv = _outcome(lambda: np.asarray(keep["fn"](hq.copy())))
+        if hv[0] == "ok":
+            m["held_interp"] = (keep["fn"], hq, hv[1].copy())
     ctx.log.add(ctx.step, "use", what, var, "ok", hash_array(oc[1]))
 
 
